@@ -6,6 +6,20 @@ import numpy as np
 from polymath.qube   import Qube
 from polymath.scalar import Scalar
 
+def _masked_outside(obj, antimask):
+    """The object with every element outside the antimask masked. The object
+    and the antimask are broadcast to a common shape first if necessary.
+    """
+
+    mask = np.logical_not(antimask)
+    if np.shape(mask) not in ((), obj._shape_):
+        shape = Qube.broadcasted_shape(obj._shape_, np.shape(mask))
+        obj = obj.broadcast_to(shape)
+        mask = np.broadcast_to(mask, shape)
+
+    return obj.mask_where(mask)
+
+#===========================================================================
 def shrink(self, antimask):
     """A 1-D version of this object, containing only the samples in the antimask
     provided.
@@ -27,7 +41,7 @@ def shrink(self, antimask):
     if Qube._DISABLE_SHRINKING:
         if not self._shape_ or Qube.is_one_true(antimask):
             return self
-        return self.mask_where(np.logical_not(antimask))
+        return _masked_outside(self, antimask)
 
     # A True antimask leaves an object unchanged
     if Qube.is_one_true(antimask):
